@@ -1,0 +1,30 @@
+//go:build verif
+
+// Verification hook (build tag "verif" only): a clock for the SubjectAccessReview result cache of the
+// credentials controllers. No behaviour change; absent from normal builds.
+
+package kube
+
+import (
+	"time"
+
+	"istio.io/istio/pkg/cluster"
+)
+
+// VerifC11AgeAuthorizationCache makes every cached authorization verdict of the given cluster's controller
+// d older, exactly as if the wall clock had advanced by d since it was stored. It reports whether the cluster
+// has a running controller.
+func VerifC11AgeAuthorizationCache(m *Multicluster, id cluster.ID, d time.Duration) bool {
+	cc := m.component.ForCluster(id)
+	if cc == nil || *cc == nil {
+		return false
+	}
+	c := *cc
+	c.mu.Lock()
+	defer c.mu.Unlock()
+	for k, v := range c.authorizationCache {
+		v.expiration = v.expiration.Add(-d)
+		c.authorizationCache[k] = v
+	}
+	return true
+}
